@@ -252,7 +252,9 @@ class Grid(col.MutableSequence):
             result._row=self._row[key]
             result._index=None
             return result
-        elif isinstance(key, numbers.Number):
+        elif isinstance(key, numbers.Number) or hasattr(key, '__index__'):
+            # A position, as a list understands it (anything that offers
+            # __index__, like the index __setitem__/__delitem__/insert take)
             return self._row[key]
         else:
             if not self._index:
